@@ -381,11 +381,24 @@ impl Archive {
         // Get file size
         let file_size = file.metadata()?.len();
 
+        // The file ends with the footer followed by its 8-byte length
+        if file_size < 8 {
+            anyhow::bail!("Archive too small ({file_size} bytes): missing footer length");
+        }
+
         // Read footer size (last 8 bytes)
         file.seek(SeekFrom::End(-8))?;
         let mut footer_size_bytes = [0u8; 8];
         file.read_exact(&mut footer_size_bytes)?;
         let footer_size = u64::from_le_bytes(footer_size_bytes);
+
+        // A truncated or corrupted file yields a garbage length: reject it before using it as an
+        // offset or as an allocation size
+        if footer_size > file_size - 8 {
+            anyhow::bail!(
+                "Corrupted or truncated archive: footer size {footer_size} exceeds file size {file_size}"
+            );
+        }
 
         // Seek to start of footer
         file.seek(SeekFrom::Start(file_size - 8 - footer_size))?;
